@@ -42,7 +42,12 @@ var effectExempt = map[string]map[string]string{
 }
 
 var purePkgs = map[string]bool{"go/types": true, "go/ast": true, "go/token": true, "strings": true, "strconv": true, "unicode": true, "unicode/utf8": true,
-	"path": true, "path/filepath": true, "errors": true, "reflect": true, "go/constant": true, "math": true}
+	"path": true, "path/filepath": true, "errors": true, "reflect": true, "go/constant": true, "math": true, "cmp": true, "iter": true}
+
+// slices and maps: pure except for the functions that write their first argument (handled as a store into it, like sort)
+var inPlaceFuncs = map[string]bool{"slices.Sort": true, "slices.SortFunc": true, "slices.SortStableFunc": true, "slices.Reverse": true,
+	"slices.Delete": true, "slices.DeleteFunc": true, "slices.Insert": true, "slices.Compact": true, "slices.CompactFunc": true, "slices.Replace": true,
+	"maps.Copy": true, "maps.DeleteFunc": true, "maps.Insert": true, "slices.Grow": false}
 
 type effGraph struct {
 	r        *Repo
@@ -227,8 +232,8 @@ func externalEffect(fn *types.Func) string {
 		if fn.Name() == "Source" {
 			return ""
 		}
-	case "sort":
-		return "" // handled as a store into its argument
+	case "sort", "slices", "maps":
+		return "" // pure, or handled as a store into its first argument
 	case "golang.org/x/tools/go/loader", "github.com/kisielk/gotool":
 		if isMethod {
 			return ""
@@ -396,9 +401,9 @@ func (g *effGraph) scan(n *effNode) {
 					if why := externalEffect(co); why != "" {
 						direct(x.Pos(), why)
 					}
-					if co.Pkg() != nil && co.Pkg().Path() == "sort" && len(x.Args) > 0 {
-						if local, name := localRoot(b, x.Args[0]); !local {
-							direct(x.Pos(), "sorts "+name+" in place")
+					if co.Pkg() != nil && len(x.Args) > 0 && (co.Pkg().Path() == "sort" || inPlaceFuncs[co.Pkg().Path()+"."+co.Name()]) {
+						if local, name := localRoot(b, x.Args[0]); !local && !freshSliceExpr(info, x.Args[0]) {
+							direct(x.Pos(), co.Pkg().Path()+"."+co.Name()+" writes "+name+" in place")
 						}
 					}
 					// function values handed to the outside count as called
@@ -571,4 +576,27 @@ func g6LoopEffects(r *Repo, rep *Report, accepted []*mapRange) {
 type mapRange struct {
 	body *Body
 	rs   *ast.RangeStmt
+}
+
+
+// freshSliceExpr: the expression is a slice (or map) nobody else holds: a call of slices.Clone / maps.Clone / slices.Collect /
+// append onto a fresh value / make.
+func freshSliceExpr(info *types.Info, e ast.Expr) bool {
+	c, ok := ast.Unparen(e).(*ast.CallExpr)
+	if !ok {
+		return false
+	}
+	switch o := callee(info, c).(type) {
+	case *types.Builtin:
+		return o.Name() == "make"
+	case *types.Func:
+		if o.Pkg() == nil {
+			return false
+		}
+		switch o.Pkg().Path() + "." + o.Name() {
+		case "slices.Clone", "maps.Clone", "slices.Collect", "slices.Sorted", "maps.Collect", "slices.Concat":
+			return true
+		}
+	}
+	return false
 }
